@@ -65,18 +65,49 @@ func Assemble(mach *procbuilder.Machine, prog []string) error {
 // NewBM wraps machines into a Bondmachine with one processor per domain and
 // the given external IO counts; bonds are "endpointA,endpointB" strings.
 func NewBM(rsize uint8, machs []*procbuilder.Machine, inputs, outputs int, bonds [][2]string) *bondmachine.Bondmachine {
+	return NewBMOrder(rsize, machs, inputs, outputs, bonds, 0)
+}
+
+// NewBMOrder is NewBM with the build steps interleaved: order = 0 adds all external inputs, then all
+// external outputs, then the processors (what every front end does); any other value seeds a shuffle
+// of those steps (each kind keeps its own order, so endpoint names are the same), which interleaves
+// external and processor endpoints in Internal_inputs / Internal_outputs.
+func NewBMOrder(rsize uint8, machs []*procbuilder.Machine, inputs, outputs int, bonds [][2]string, order uint64) *bondmachine.Bondmachine {
 	bm := new(bondmachine.Bondmachine)
 	bm.Rsize = rsize
 	bm.Init()
+	for _, m := range machs {
+		bm.Domains = append(bm.Domains, m)
+	}
+	steps := make([]byte, 0, inputs+outputs+len(machs))
 	for i := 0; i < inputs; i++ {
-		bm.Add_input()
+		steps = append(steps, 'i')
 	}
 	for i := 0; i < outputs; i++ {
-		bm.Add_output()
+		steps = append(steps, 'o')
 	}
-	for i, m := range machs {
-		bm.Domains = append(bm.Domains, m)
-		bm.Add_processor(i)
+	for range machs {
+		steps = append(steps, 'p')
+	}
+	if order != 0 {
+		x := order
+		for i := len(steps) - 1; i > 0; i-- {
+			x = x*6364136223846793005 + 1442695040888963407
+			j := int((x >> 33) % uint64(i+1))
+			steps[i], steps[j] = steps[j], steps[i]
+		}
+	}
+	np := 0
+	for _, st := range steps {
+		switch st {
+		case 'i':
+			bm.Add_input()
+		case 'o':
+			bm.Add_output()
+		default:
+			bm.Add_processor(np)
+			np++
+		}
 	}
 	for _, b := range bonds {
 		bm.Add_bond([]string{b[0], b[1]})
